@@ -32,6 +32,15 @@ def main():
             key = re.search(r"^key=(.*)$", txt, re.M).group(1)
             if key in known or key.startswith("wellformed|"):
                 continue
+            if key.startswith("cell|"):
+                cell = key.split("|")[1]
+                wit = "findings/census/%s.nano" % cell[7:] if cell.startswith("census/") else "findings/C04/cell_%s.nano" % cell
+                what = re.search(r"\n\n(.*?)\n", txt, re.S).group(1)
+                kj["open"].append({"property": "C04", "key": key, "what": what[:300], "witness": wit})
+                known.add(key)
+                added += 1
+                print("added", key)
+                continue
             src = os.path.join(p, "reduced") if os.path.isdir(os.path.join(p, "reduced")) else p
             files = {f: open(os.path.join(src, f)).read() for f in os.listdir(src) if f.endswith(".nano")}
             side = "vm" if re.search(r"\(.*vm backend\)|\(vm backend\)", txt) else "native"
